@@ -6,6 +6,7 @@ import (
 	"encoding/json"
 	"fmt"
 	"reflect"
+	"strings"
 
 	"pgregory.net/rapid"
 )
@@ -163,7 +164,7 @@ func genCondsFrom(t *rapid.T, min, max int, cands []interface{}) []Cond {
 				dup = true
 			}
 		}
-		if dup || k == "" { // a sub-key argument needs a name
+		if dup || k == "" || strings.ContainsAny(k, ":|=>§!") { // a sub-key argument needs a name, and one that no separator or the negation mark splits
 			continue
 		}
 		cs[i].Key = k
